@@ -69,7 +69,7 @@ static void op_ra (int n, char **tok)
   char *ret = NULL; int e = 0, aborted = 0;
   call_begin ();
   jmp_buf jb; abort_jmp = &jb;
-  if (!setjmp (jb)) { in_call = 1; errno = 0; ret = crypt_ra ((char *)p0, (char *)s0, &objs[id].ra_data, &objs[id].ra_size); e = errno; in_call = 0; }
+  if (!setjmp (jb)) { in_call = 1; errno = ENTRY_ERRNO; ret = crypt_ra ((char *)p0, (char *)s0, &objs[id].ra_data, &objs[id].ra_size); e = errno; last_errno = e; in_call = 0; }
   else { in_call = 0; aborted = 1; }
   struct crypt_data *d = objs[id].ra_data;
   struct lent *le = d ? lfind (d) : NULL;
@@ -99,9 +99,9 @@ static void op_gensalt_ra (int n, char **tok)
   int pnull, rnull; size_t pl, rl; unsigned char *pf = unhex (tok[1], &pl, &pnull), *rb = unhex (tok[3], &rl, &rnull);
   unsigned long count = strtoul (tok[2], 0, 10); int nrb = atoi (tok[4]);
   char *ret = NULL; int e = 0;
-  call_begin (); in_call = 1; errno = 0;
+  call_begin (); in_call = 1; errno = ENTRY_ERRNO;
   ret = crypt_gensalt_ra ((char *)pf, count, (char *)rb, nrb);
-  e = errno; in_call = 0;
+  e = errno; last_errno = e; in_call = 0;
   struct lent *le = ret ? lfind (ret) : NULL;
   if (le) le->in_call = 0;
   printf ("ret="); if (!ret) printf ("NULL"); else puthex ((unsigned char *)ret, strlen (ret));
